@@ -1848,7 +1848,11 @@ func main() {
 					noise = append(noise, l)
 				}
 			}
-			w.Fail(lib.ImplFailure{CaseID: -1, What: fmt.Sprintf("a follower node with the etcd proxy enabled died after %d rounds of {WatchCreateRequest, WatchCancelRequest, forwarded Txn} from a client (%v)", iters, runErr),
+			code := 0
+			if strings.Contains(stderr.String(), "close of closed channel") && strings.Contains(stderr.String(), "watchGrpcStream") {
+				code = 1 // finding C20-F1: the duplicate Canceled response panics the etcd client inside the follower's proxy
+			}
+			w.Fail(lib.ImplFailure{CaseID: -1, Code: code, What: fmt.Sprintf("a follower node with the etcd proxy enabled died after %d rounds of {WatchCreateRequest, WatchCancelRequest, forwarded Txn} from a client (%v)", iters, runErr),
 				Case: map[string]interface{}{"sequence": "per round, on a new stream to the follower: WatchCreateRequest{key:/registry/} ; WatchCancelRequest{watch_id: the id just created} ; end of stream; plus one generated Txn and every 8th round a Range", "rounds": iters,
 					"stderr_tail": tail(strings.Join(noise, "\n"), 3000)}})
 		}
